@@ -148,7 +148,16 @@ fn relative_clock(sc: &Clock, a: u16, b: u16, c: u16) -> (Clock, &'static str) {
     let name = match mode {
         0 => {
             for (x, n) in sc {
-                let v = next(*n as u32 + 1) as u64;
+                // uniformly below n for small n; for huge counters: n, n-1 or something small
+                let v = if *n >= u32::MAX as u64 {
+                    match next(3) {
+                        0 => *n,
+                        1 => *n - 1,
+                        _ => next(1000) as u64,
+                    }
+                } else {
+                    next(*n as u32 + 1) as u64
+                };
                 if v > 0 {
                     out.insert(*x, v);
                 }
@@ -161,7 +170,7 @@ fn relative_clock(sc: &Clock, a: u16, b: u16, c: u16) -> (Clock, &'static str) {
         }
         2 => {
             for (x, n) in sc {
-                out.insert(*x, *n + next(2) as u64);
+                out.insert(*x, n.saturating_add(next(2) as u64));
             }
             out.insert(77, 1);
             "above"
@@ -172,7 +181,7 @@ fn relative_clock(sc: &Clock, a: u16, b: u16, c: u16) -> (Clock, &'static str) {
                     0 => 0,
                     1 => n.saturating_sub(1),
                     2 => *n,
-                    _ => *n + 1,
+                    _ => n.saturating_add(1),
                 };
                 if v > 0 {
                     out.insert(*x, v);
